@@ -5,23 +5,33 @@ import glob, json, os, re, subprocess
 V = "/verif"
 def rd(n): return open(os.path.join(V, "design", n)).read().rstrip("\n") + "\n"
 
+def _res(ck):
+    def one(t):
+        c = (ck or {}).get(t)
+        if not c: return None
+        v = c.get("violations") or []
+        if not v: return "miss"
+        return "no input" if all("no-failing-input-found" in x for x in v) else "input"
+    q, t = one("quick"), one("thorough")
+    if q in ("input", "no input"): return "quick: " + ("failing input" if q == "input" else "obligation/correspondence only")
+    if t in ("input", "no input"): return "thorough only: " + ("failing input" if t == "input" else "obligation/correspondence only")
+    if q is None: return "?"
+    return "MISSED"
+
 def seeds_table():
     rows = []
+    import collections
+    first = collections.Counter(); final = collections.Counter()
     for d in sorted(glob.glob(V + "/seeded/*/")):
         sid = os.path.basename(d.rstrip("/"))
         try: m = json.load(open(d + "meta.json"))
         except Exception: continue
-        ck = m.get("checks") or {}
-        def res(t):
-            c = ck.get(t)
-            if not c: return ""
-            v = c.get("violations") or []
-            if not v: return "no (%ss)" % c.get("wall_s")
-            noinp = all("no-failing-input-found" in x for x in v)
-            return ("obligation/correspondence only" if noinp else "failing input") + " (%ss)" % c.get("wall_s")
-        summ = re.sub(r"\s+", " ", m.get("summary", ""))[:230]
-        rows.append("| %s | %s | %s | %s | %s |" % (sid, summ.replace("|", "/"), "yes" if m.get("confirmed") else ("NO" if m.get("confirmed") is False else "?"), res("quick"), res("thorough")))
-    return "\n".join(rows)
+        fs = _res((m.get("first_shot") or {}).get("checks")); fin = _res(m.get("checks"))
+        first[fs] += 1; final[fin] += 1
+        summ = re.sub(r"\s+", " ", m.get("summary", ""))[:200]
+        rows.append("| %s | %s | %s | %s | %s |" % (sid, summ.replace("|", "/"), "yes" if m.get("confirmed") else ("NO" if m.get("confirmed") is False else "?"), fs, fin))
+    tot = lambda c: ", ".join("%s: %d" % kv for kv in sorted(c.items()))
+    return "\n".join(rows) + "\n\nTotals - first shot (the machinery as it was when the seed arrived): " + tot(first) + ".  Final (after the strengthening the miss prompted): " + tot(final) + ".\n"
 
 def axioms_table():
     rows = []
@@ -51,7 +61,7 @@ nseeds = len(glob.glob(V + "/seeded/*/meta.json"))
 corpus = len([l for l in open(V + "/corpus/fens.txt") if l.strip() and not l.startswith("#")])
 parts = [rd("00_status.md"), rd("01_why.md"), rd("02_architecture.md"), rd("03_tie.md"), rd("04_breaks.md"), rd("05_inputs.md"),
          "## 6. Per-property design, as built\n\n" + rd("06a_properties.md").split("\n", 1)[1], rd("06c_c08.md") if os.path.exists(V + "/design/06c_c08.md") else "", rd("06b_c12_c14.md"),
-         "### 6.1 Seeded regressions and what caught them\n\nEach row is a change written by a sub-agent that was given only the property text and a scratch worktree; `confirmed` = the patch builds, its demonstration fails with it and passes without it, and the stable tests of the touched packages still pass (`tools/seed_verify.py`).  The check columns are from runs of the committed machinery against a worktree with the patch applied (`failing input` = a VIOLATION line with a concrete replay; `obligation/correspondence only` = caught, but the monitors found no input: `no-failing-input-found`).  Where an earlier version of a check missed a seed, the monitor or generator was strengthened (commit messages name the seed) and the seed re-verified; the rows show the final state.\n\n| seed | change | confirmed | quick | thorough (only run when quick missed) |\n|---|---|---|---|---|\n" + seeds_table() + "\n",
+         "### 6.1 Seeded regressions and what caught them\n\nEach row is a change written by a sub-agent that was given only the property text and a scratch worktree; `confirmed` = the patch builds, its demonstration fails with it and passes without it, and the stable tests of the touched packages still pass (`tools/seed_verify.py`).  Both result columns are from runs of the property's own check against a worktree with the patch applied (`failing input` = a VIOLATION line with a concrete replay; `obligation/correspondence only` = caught, but the monitors found no input: `no-failing-input-found`; thorough is only run when quick misses).  `first shot` is the machinery as it was when the seed arrived; where it missed, or caught without an input, the monitor or generator was strengthened in a general way (commit messages name the seed) and the seed re-verified: `final`.  Seeds arrived in rounds (-1, -2, -3, ...), each round written against the property text only and told to differ from the earlier ones; the first-shot column of a later round therefore measures how the strengthening generalises.\n\n| seed | change | confirmed | first shot | final |\n|---|---|---|---|---|\n" + seeds_table() + "\n",
          rd("07_hooks.md"), rd("08_defects.md"), rd("09_borderline.md"), rd("10_trusted.md") + "\n| property | theorems with Print Assumptions | closed | other assumptions reported |\n|---|---|---|---|\n" + axioms_table() + "\n", rd("11_cost.md")]
 txt = "\n\n".join(p for p in parts if p)
 for k, v in {"{{COQ_FILES}}": str(len(coq)), "{{COQ_LINES}}": "{:,}".format(lines), "{{SITES}}": nsites, "{{DEFECTS}}": str(defects), "{{SEEDS}}": str(nseeds), "{{CORPUS}}": str(corpus)}.items():
